@@ -574,7 +574,11 @@ func engineRun(prop string, profile engineProfile, orc engineOracle, hangIsViola
 		ec := profile(r, idx, c.Tier)
 		// C06: a quarter of the box cases in which a gating group (pre-checks, continuous checks) fails
 		c06Gate := prop == "C06" && idx < 486 && idx%4 == 1 && (((idx%243)/3)%3 == 2 || ((idx%243)/9)%3 == 2)
-		if idx%32 == 9 || c06Gate {
+		share := 32
+		if c.Tier == "thorough" {
+			share = 96
+		}
+		if idx%share == 9 || c06Gate {
 			cosmosify(ec)
 		}
 		if ec.RacingStarts > 1 && c.Emit != nil {
